@@ -1,0 +1,42 @@
+//go:build verif
+// +build verif
+
+// Package verifbridge exists only under the `verif` build tag. It re-exports
+// internal state that an external verification harness cannot import. It adds
+// no behaviour to the library.
+package verifbridge
+
+import (
+	"github.com/bytedance/sonic/internal/encoder/vars"
+	"github.com/bytedance/sonic/internal/envs"
+	"github.com/bytedance/sonic/internal/native"
+	"github.com/bytedance/sonic/internal/native/avx2"
+	"github.com/bytedance/sonic/internal/native/sse"
+)
+
+// NativeTable reports which pre-assembled routine table is installed.
+func NativeTable() string {
+	switch native.S_quote {
+	case avx2.S_quote:
+		return "avx2"
+	case sse.S_quote:
+		return "sse"
+	}
+	return "unknown"
+}
+
+// Config reports the process-level implementation switches actually in force.
+func Config() map[string]string {
+	b := func(v bool) string {
+		if v {
+			return "1"
+		}
+		return "0"
+	}
+	return map[string]string{
+		"native":  NativeTable(),
+		"optdec":  b(envs.UseOptDec),
+		"fastmap": b(envs.UseFastMap),
+		"vm":      b(vars.UseVM),
+	}
+}
